@@ -323,7 +323,7 @@ fn builtin_cases(thorough: bool) -> Vec<Case> {
 }
 
 pub fn generate(seed: u64, n: usize, thorough: bool, _corpus: Option<&str>) -> Vec<Case> {
-    let mut r = Rng::new(seed);
+    let mut r = Rng::new(crate::pre_gen::spread_seed(seed));
     let mut cases = vec![];
     let pool = pool();
     // ---- templates: every position × every perturbation (exhaustive in the thorough tier, sampled otherwise)
